@@ -760,6 +760,23 @@ class _Expr(SymEval):
                 return None
             if f.id == "id" and len(n.args) == 1:
                 return id(self.eval(n.args[0]))
+            if f.id == "iter" and len(n.args) == 1:
+                v_ = self.eval(n.args[0])
+                if isinstance(v_, Rec) or hasattr(v_, "__next__"):
+                    return v_
+                if isinstance(v_, (list, tuple)):
+                    return iter(v_)
+                if isinstance(v_, np.ndarray):
+                    return iter([v_[i] for i in range(v_.shape[0])])
+                raise NotSymbolic("iter() of a non-sequence")
+            if f.id == "open" and "open" not in self.env and n.args:
+                # the output (or input) file of an API routine: a model file; the rule sees what happened through it
+                hook = getattr(self.owner, "ext_stubs", {}).get("builtins.open")
+                margs = [self.eval(a) for a in n.args]
+                mkw = {k.arg: self.eval(k.value) for k in n.keywords if k.arg is not None}
+                if hook is None:
+                    raise NotSymbolic("open() without a model file")
+                return hook(margs, mkw)
             if f.id == "next" and len(n.args) == 1:
                 it_ = self.eval(n.args[0])
                 if isinstance(it_, Rec):
@@ -868,6 +885,8 @@ class AccessorEval:
         if name in rec.fields:
             return rec.fields[name]
         ci = rec.cls or self.cls
+        if ci is None:
+            raise Raised("AttributeError")  # a plain model object without that attribute
         g = ci.getters.get(name)
         if g is not None:
             return self.run(g, rec, {})
@@ -936,6 +955,16 @@ class AccessorEval:
             self.module = saved_mod
 
     def run_free(self, func, args, kwargs, closure=None):
+        if getattr(func, "is_generator", False) and self.__dict__.get("eager_generators") and self.__dict__.get("_in_generator") is not func:
+            # a generator function called for its value: run to the end now, the values in order (event order of an
+            # eager run; laziness itself is a structural clause decided elsewhere)
+            saved_c, saved_g = self.__dict__.get("collect_yields"), self.__dict__.get("_in_generator")
+            self.collect_yields, self._in_generator = [], func
+            try:
+                self.run_free(func, args, kwargs, closure)
+                return list(self.collect_yields)
+            finally:
+                self.collect_yields, self._in_generator = saved_c, saved_g
         """A module-level helper called from an accessor (`closure`: the enclosing function's variables for a
         nested function -- read-only: a nested function that rebinds them is outside the fragment)."""
         self.depth += 1
@@ -1180,7 +1209,8 @@ class AccessorEval:
             return
         if isinstance(st, ast.FunctionDef):
             g = next((h for h in self.prog.funcs.values() if h.node is st), None)
-            if g is None or any(isinstance(x, (ast.Nonlocal, ast.Yield, ast.YieldFrom)) for x in ast.walk(st)) or st.decorator_list:
+            gen_ok = bool(self.__dict__.get("eager_generators"))
+            if g is None or any(isinstance(x, ast.Nonlocal) or (isinstance(x, (ast.Yield, ast.YieldFrom)) and not gen_ok) for x in ast.walk(st)) or st.decorator_list:
                 raise NotSymbolic(f"nested function {st.name}")
             local[st.name] = ("<function>", lambda args, kw, g=g, local=local: self.run_free(g, args, kw, closure=local))
             return
